@@ -135,6 +135,8 @@ def run(ctx):
             ctx.ok("C20.R2", f"{pm}:args", nontrivial=(pm != "_pswindows"),
                    sample=f"{pm}: (pid, name[, ppid]) from the instance")
     _zombie_recognition(ctx, repo)
+    _pid0_clause(ctx, repo, A)
+    _no_swallowed_denial(ctx, repo)
     cv = repo.func("_pswindows", "convert_oserror")
     rets = [norm_stmt(r.value).replace(" ", "") for r in ast.walk(cv.node)
             if isinstance(r, ast.Return)]
@@ -656,3 +658,84 @@ def _windows_fallbacks(ctx, repo):
         ctx.fail("C20.R5", "win-cputimes:fallback", f.file, calls[0].lineno, f.qual,
                  f"the access-denied fallback feeds pcputimes(user, system, ...) from "
                  f"{[asg.get(x) for x in a]}")
+
+
+# handlers that absorb a permission failure by design (reviewed on the pinned tree)
+SWALLOW_OK = {
+    ("_pssunos", "Process.exe"): "exe() falls back to guessing the path from cmdline()",
+    ("_pslinux", "Process._is_zombie"): "the zombie probe answers False when it cannot read",
+}
+
+
+def _no_swallowed_denial(ctx, repo):
+    """A handler that covers PermissionError inside a Process method must let it
+    out (re-raise / translate) on some path; one that absorbs it turns 'access
+    denied' into an ordinary (wrong) answer."""
+    from ..core.astutil import handler_catches
+    n = 0
+    for pm in sorted(set(P.PLATFORM_MODULES.values())):
+        for f in repo.all_funcs(pm):
+            if f.cls != "Process" or f.parent is not None:
+                continue
+            for t in ast.walk(f.node):
+                if not isinstance(t, ast.Try):
+                    continue
+                for h in t.handlers:
+                    if not handler_catches(h, ["PermissionError"]):
+                        continue
+                    n += 1
+                    key = f"denial-not-absorbed:{pm}:{f.qual}:{norm_stmt(h.type) if h.type else 'bare'}"
+                    raises = any(isinstance(x, ast.Raise) for b in h.body for x in ast.walk(b))
+                    if raises:
+                        ctx.ok("C20.R2", key, nontrivial=False)
+                    elif (pm, f.qual) in SWALLOW_OK:
+                        ctx.ok("C20.R2", key, sample=SWALLOW_OK[(pm, f.qual)], nontrivial=False)
+                    else:
+                        ctx.fail("C20.R2", key, f.file, h.lineno, f.qual,
+                                 f"[{pm}] `except {norm_stmt(h.type) if h.type else ''}` in "
+                                 f"{f.qual} absorbs a permission failure (and every other OS "
+                                 f"error) without re-raising: the method returns an ordinary "
+                                 f"value where AccessDenied is due")
+    ctx.require(n >= 10, f"only {n} handlers covering PermissionError found")
+
+
+def _pid0_clause(ctx, repo, A):
+    """BSD / Solaris: an unexplained OSError becomes AccessDenied only for the
+    EXISTING PID 0, i.e. when 0 is in the process list."""
+    from ..core.cfg import decompose_guard
+    for pm in ("_psbsd", "_pssunos"):
+        w = repo.func(pm, "wrap_exceptions.wrapper")
+        cfg = A.cfg(w)
+        found = False
+        for n in cfg.nodes:
+            if n.kind != "raise" or not isinstance(n.stmt.exc, ast.Call) \
+                    or dotted(n.stmt.exc.func) != "AccessDenied":
+                continue
+            atoms = [(a_, t_) for e, pol, _ in cfg.guards(n) for a_, t_ in decompose_guard(e, pol)]
+            txt = [norm_stmt(a_).replace(" ", "") for a_, t_ in atoms if t_ is True]
+            if not any(x in ("pid==0", "self.pid==0", "0==pid") for x in txt):
+                continue        # the PermissionError branch
+            found = True
+            key = f"{pm}:pid0-listed"
+            listed = any(isinstance(a_, ast.Compare) and len(a_.ops) == 1
+                         and isinstance(a_.ops[0], ast.In) and t_ is True
+                         and isinstance(a_.comparators[0], ast.Call)
+                         and (dotted(a_.comparators[0].func) or "").split(".")[-1] == "pids"
+                         for a_, t_ in atoms)
+            other = [x for x in txt if x not in ("pid==0", "self.pid==0", "0==pid")]
+            if listed:
+                ctx.ok("C20.R2", key, sample="pid == 0 and 0 in pids() -> AccessDenied")
+            elif any("pid_exists" in x for x in other):
+                ctx.fail("C20.R2", key, w.file, n.line, w.qual,
+                         f"[{pm}] the PID-0 clause asks pid_exists(0) instead of looking PID 0 "
+                         f"up in pids(): the POSIX pid_exists() answers True for 0 without "
+                         f"checking, so an OSError on a PID 0 that is NOT listed (jail, zone) "
+                         f"is turned into AccessDenied instead of passing through")
+            else:
+                ctx.advisory(f"C20.R2 {key}: existence test `{other}` has a form this rule does "
+                             f"not know; not decided")
+                ctx.ok("C20.R2", key, sample="not decided", nontrivial=False)
+        if not found:
+            ctx.fail("C20.R2", f"{pm}:pid0-listed", w.file, w.node.lineno, w.qual,
+                     f"[{pm}] the documented PID-0 clause (OSError on the listed PID 0 -> "
+                     f"AccessDenied) vanished")
